@@ -26,7 +26,7 @@ Definition pair_mem (f fn:string) (l:list (string*string)) : bool := existsb (fu
 Definition site_ok (s:site) : bool :=
   let '(file, fn, kind, detail, prov) := s in
   if String.eqb kind "inplace" then
-    mem prov ["fresh"; "scalar"] || (String.eqb file "utils.py" && String.eqb fn "memoizer")
+    mem prov ["fresh"; "scalar"] || (String.eqb file "utils.py" && String.eqb fn "memoize")
   else if String.eqb kind "global_write" then
     String.eqb file "dtcwt/coeffs.py" && String.eqb fn "_load_from_file" && String.eqb detail "COEFF_CACHE"
   else if String.eqb kind "self_write" then false
